@@ -8,6 +8,50 @@ ROOT = os.path.dirname(os.path.dirname(os.path.abspath(__file__)))
 
 # id -> (design_ref, text, note, technique)
 CLAIMED = {
+    "C01": ("5/C01",
+            "TLA+ modules define the codecs declaratively and independently of the Go code: Wire (binary serix: Enc/Dec over schemas and "
+            "value trees, numbers as limbs), WireJson (JSON/map form), Stream (Write*/Read* pairs over a reader that splits its reads "
+            "arbitrarily), Deser (Serializer/Deserializer primitives), StreamBuf. TLC checks round trip, consumed = produced, all read "
+            "splittings and Enc determinism on small scopes; TLC-generated (schema, value, bytes, chunking) tables are replayed on the real "
+            "serix API / stream helpers for a catalogue of 73 + 11 Go types (model -> code), and records of random values and chunkings "
+            "from the real code are validated by TLC (code -> model).",
+            "Real-code shapes limited to the hand-written type catalogue; custom Serializable types opaque; NaN payloads bitwise.",
+            "TLA+ declarative codec models (TLC small-scope exhaustive), model-generated tables replayed on the code, TLC record validation"),
+    "C02": ("5/C02",
+            "The decoders are modelled as step machines over (src, offset) with offset <= Len(src) and alloc <= remaining + c as "
+            "invariants; TLC checks them for ALL byte strings of length <= 6 over {0,1,2,255} x all catalogue schemas / 43 primitive "
+            "programs / 29 stream helpers and all JSON documents of a 126-document family at every field position; every enumerated "
+            "input is fed to the real serix.Decode, Deserializer primitives, stream Read* helpers and JSONDecode/MapDecode under recover "
+            "with allocation deltas and an iteration watchdog, and the result class, consumed count and value must equal the model's; "
+            "mutated real encodings are validated by TLC.",
+            "Inputs longer than 6 bytes only sampled; allocation is measured (MemStats), not proved; zero-width element sequences "
+            "are excluded (the count is not bounded by the input there - outside the statement).",
+            "TLA+ decoder state machines (TLC exhaustive over all short inputs), table replay on real decoders, TLC record validation"),
+    "C03": ("5/C03",
+            "Wire.tla IS the documented layout (LE limbs, 0/1 bool, 1/2/4/8-byte prefixes, u8/u32 type codes, u32 optional marker, 32-byte "
+            "LE uint256, ns timestamps, byte-lexical map order, all array rules) written independently of the Go code. Forward: Encode(v) "
+            "of the real API must equal the model's bytes for all TLC-enumerated (schema, value) pairs of the catalogue. Reverse: for "
+            "every enumerated or mutated byte string the real validating decoder accepts, acceptance must agree with the model and the "
+            "re-encoding must equal b[:n].",
+            "73 catalogue types; byte strings of length <= 6 exhaustively, longer ones sampled; timestamps inside the int64-ns range.",
+            "TLA+ reference encoder/decoder (TLC small-scope exhaustive), forward/reverse table replay on the real serix API"),
+    "C14": ("5/C14",
+            "TLA+ module Derived defines each derived value as the FUNCTION of its inputs (DerivedVariable 1/2 inputs, InheritFrom, "
+            "DerivedSet union, SubtractReactive, Counter, SortedSet, WaitGroup, EvictionState); TLC exhaustive + complete LTS replay on the "
+            "real objects + recorded histories (all histories); implementation-level models of SortedSet and WaitGroup for all "
+            "interleavings with negative controls; free-running writers on different inputs plus 13 forced schedules (gated weight "
+            "variables, yield points) validated by TLC against DerivedRun: at quiescence derived = F(inputs) and nobody hangs.",
+            "3 elements / weights {0,1,2} / 2-3 inputs; DerivedVariable3/4 not covered; interleavings on the real code only through gates, "
+            "two yield points and free running.",
+            "TLA+ functional spec (TLC exhaustive, LTS replay), impl-level models, forced schedules, TLC trace validation"),
+    "C20": ("5/C20",
+            "TLA+ module Daemon at quiescent points (worker handlers are gates that observe cancellation and are released by the harness): "
+            "every arrival order of BackgroundWorker / Start / Run / Shutdown / ShutdownAndWait / worker exit for 3-4 workers with ties, "
+            "negative orders and gaps is replayed on real daemon instances; DaemonImpl models stopWorkers/BackgroundWorker/Run at lock "
+            "level for all interleavings with 6 negative controls; forced schedules through two yield points and free-running executions "
+            "are validated by TLC against DaemonRun (no cancel before higher orders returned, equal orders together, waits complete).",
+            "Quick LTS uses orders {-1,5}, the rest in traces/thorough; orders fixed per name in DaemonImpl.",
+            "TLA+ quiescent-point spec (TLC exhaustive, LTS replay with handler gates), impl-level model, TLC trace validation"),
     "C10": ("5/C10",
             "A pointer-level TLA+ heap model of container/list semantics (sentinels, next/prev/owner pointers, len; live, removed, "
             "foreign and Init-orphaned handles; a list as its own argument) is checked by TLC (ring well-formedness) and its complete "
